@@ -34,7 +34,7 @@ def gen_cases(chk, per_font, fonts=None, ops=('dump', 'trace'), maxlen=24):
     for font in (fonts or S.FONTS):
         rep = S.repertoire(vlib.REPO, font)
         for i in range(per_font):
-            cps = S.gen_text(rng, rep, maxlen)
+            cps = S.gen_text_seeded(rng, vlib.REPO, font, maxlen) if rng.random() < 0.35 else S.gen_text(rng, rep, maxlen)
             enc = rng.choice((8, 16, 32))
             d = rng.randrange(8)
             units = S.encode(cps, enc)
